@@ -403,6 +403,10 @@ Expect(c) ==
     [] op = "col" -> Col(c[2], c[3], c[4])
     \* pairwise element indexing ra[rows, cols] with two equally long integer sequences (beyond the index grammar of C02 / C03: part of
     \* the library's behaviour, specified the numpy way): the k-th result is the cell (rows[k], cols[k]); any pair that does not exist is refused
+    \* column totals of a TALL array in compressed form: n copies of one row of a 16- / 32-bit dtype (values as limbs); the totals are
+    \* n times the row, far beyond 2^53 for millions of rows, and always inside 64 bits
+    [] op = "wcolsum_rep" -> IF c[2] \notin {"i2", "u2", "i4", "u4"} \/ c[3] = <<>> \/ c[4] < 1 \/ c[4] > 4194304 THEN UNSPEC
+                             ELSE <<"flat", ReduceType("add", c[2]), [j \in DOMAIN c[3] |-> WideMulN(c[3][j], c[4])]>>
     [] op = "getpairs" -> PairsGet(c[2], c[3], c[4])
     [] op = "setpairs" -> PairsSet(c[2], c[3], c[4], c[5])
     \* 64-bit row totals / running totals of an array whose values are 16-bit limbs: exact modulo 2^64 (NpVal!WideSum)
